@@ -9,7 +9,7 @@ import itertools
 import json
 
 from mon import refbufr as R
-from mon import handover
+from mon import handover, midscan
 from mon.compare import impl_subset, td_of, opsig, jsonable
 from mon.gen import cases
 from mon.gen import failures
@@ -24,13 +24,15 @@ RULE = ('uncompressed R-produced messages with 2-5 subsets whose replication cou
         'for n<=3 (thorough n<=4), sampled beyond; non-trivial when the subsets differ in length or '
         'the template leaves an operator open / uses a bitmap; distinct by SHA-1 of the joint bytes; same-layout-different-bitmap subsets; for scoped templates the joint decode is repeated with template compilation on')
 RULE += '; added with rounds 10-12: object histories with fewer subsets selected by lowering the count; twins'
+RULE += ('; mid-scan scenarios (mon/midscan.py): the joint message, its reverse-order form and single subsets delivered by scans / '
+         'decodes in flight together on one decoder, each position held against the subset decoded alone')
 ASSUMPTIONS = ['R concatenates per-subset bit strings, each produced from fresh registers (that is the '
                'FM-94 reading the property states)', 'comparison is between executions of the real code; '
                'R only supplies bytes']
 BUDGET = {'quick': 45, 'thorough': 600}
 QUOTA = {'quick': 260, 'thorough': 4500}
 REQUIRED = {'quick': {'evaluations': 960, 'open_operator_cases': 200, 'bitmap_cases': 150, 'permutations_checked': 2000,
-                      'differing_length_cases': 300, 'compiled_joint_decodes': 100},
+                      'differing_length_cases': 300, 'compiled_joint_decodes': 100, 'mid_scan_results_judged': 1500},
             'thorough': {'evaluations': 15000, 'open_operator_cases': 3000, 'bitmap_cases': 3000,
                       'permutations_checked': 50000, 'differing_length_cases': 5000}}
 
@@ -107,6 +109,22 @@ def features(msg):
     return f
 
 
+def judge_alone(kind, m, alone, opts):
+    """C06's oracle for a message delivered / read in the middle of other work: position by position what each subset gives when
+    it is decoded alone on a quiet decoder (hierarchical view only where the message was wired)"""
+    if kind != 'full':
+        return None
+    wired = opts.get('wire_template_data', True)
+    snap = snapshot(m)
+    if len(snap) != len(alone):
+        return ('subset-count', '%d subsets delivered, %d expected' % (len(snap), len(alone)))
+    for pos, (got, exp) in enumerate(zip(snap, alone)):
+        for j, why in enumerate(('labels', 'values', 'links') + (('nested',) if wired else ())):
+            if got[j] != exp[j]:
+                return ('%s-differ-from-alone' % why, 'subset at position %d decodes differently (%s) from the same subset decoded alone' % (pos, why))
+    return None
+
+
 def check_case(ctx, dec, enc, msg, origin, name=None, decc=None, Dtab=None):
     spec = dict(origin=origin, shape=name, ids=msg.ids, nsub=msg.nsub, edition=msg.edition,
                 hex=msg.bytes.hex())
@@ -164,6 +182,23 @@ def check_case(ctx, dec, enc, msg, origin, name=None, decc=None, Dtab=None):
                             'subset decoded alone; ops[%s]' % (k, pos, order, why, opsig(msg.ids)),
                             dict(spec, order=order))
                 return
+    # the same independence when the joint message and its subsets (alone, and joined in reverse order) are delivered by scans
+    # and decodes that are in flight together on one decoder: each delivered subset is held against the subset decoded alone
+    if len(msg.bytes) < 3000:
+        recent = ctx.__dict__.setdefault('_c06_recent', [])
+        rev = list(reversed(range(n)))
+        k1 = ctx.rng.randrange(n)
+        recent.append(((msg.bytes, list(singles)), (R.select_subsets(msg, rev).bytes, [singles[k] for k in rev]),
+                       (R.select_subsets(msg, [k1]).bytes, [singles[k1]])))
+        if len(recent) >= 3:
+            ctx.count('mid_scan_blocks')
+            if ctx.counters['mid_scan_blocks'] % (4 if ctx.quick else 2) == 1:
+                from pybufrkit.decoder import Decoder
+                A = [r[0] for r in recent]
+                Bs = [r[1] for r in recent[:2]] + [r[2] for r in recent]
+                ctx.rng.shuffle(Bs)
+                midscan.scenarios(ctx, 'independence', Decoder, A, Bs, judge_alone, dict(origin='mid-scan'))
+            del recent[:]
     # the same independence with template compilation on (only where compilation is claimed to preserve
     # behaviour at all: templates whose operators are closed within one replication scope, C08's proviso)
     if decc is not None and Dtab is not None and scoped(msg.ids, Dtab):
